@@ -1,8 +1,9 @@
 import SudsModel.Driver.C04
+import SudsModel.Driver.C08
 namespace Suds.Driver
 open Lean
 
-def handlers : List Handler := [C04.handle]
+def handlers : List Handler := [C04.handle, C08.handle]
 
 def dispatch (op : String) (j : Json) : Option Json :=
   handlers.findSome? fun h => h op j
